@@ -37,7 +37,9 @@ var c07Contexts = []c07ctx{
 var c07Closed = map[string]bool{"1 + ;": true, "$a = ;": true, "=> 1 ;": true, "1 1 ;": true, "new ;": true, "echo , ;": true, "$a = = 1 ;": true, "$a -> ;": true,
 	"__halt_compiler ( ;": true, "__halt_compiler ;": true, "__halt_compiler ( ) x ;": true, "<<<A\nx\nA\n 1 ;": true, "\"a $b \" 1 ;": true,
 	// the offending token is itself one that switches the scanner's mode
-	"$x \"v $y\" ;": true, "$x \"v {$y}\" ;": true, "$x \"v ${y}\" ;": true, "$x \"v $y[0]\" ;": true, "$x `ls $y` ;": true, "$x <<<A\nv $y\nA\n ;": true, "foo ( $x \"v $y z\" ) ;": true, "$x -> -> b ;": true}
+	"$x \"v $y\" ;": true, "$x \"v {$y}\" ;": true, "$x \"v ${y}\" ;": true, "$x \"v $y[0]\" ;": true, "$x `ls $y` ;": true, "$x <<<A\nv $y\nA\n ;": true, "foo ( $x \"v $y z\" ) ;": true, "$x -> -> b ;": true,
+	// an opening bracket that is never closed: yacc pops back to the statement level, nothing that follows is inside it
+	"foo ( ;": true, "foo ( 1 + ;": true, "$a [ ;": true, "new A ( $b , ;": true, "if ( ;": true}
 
 // a lone closing bracket opens nothing, and yacc's recovery discards it as the offending token; a lone `}` is such a token
 // only where no scope is open (top level) — elsewhere it closes the context's own block
@@ -49,7 +51,7 @@ func c07IsClosed(m string, ctx c07ctx) bool {
 var c07ModeForms = []string{"\"{$a}\" ;", "\"${a}\" ;", "\"$a[0]\" ;", "\"$a->b\" ;", "\"{$a[\"{$b}\"]}\" ;", "`{$a}` ;", "<<<A\n{$a}\nA\n ;", "<<<A\n$a[0] ${b}\nA\n ;",
 	"$a -> b ;", "{ }", "{ { } }", "$f = function ( ) { \"{$a}\" ; } ;", "\"{${a}}\" ;", "\"${a[0]}\" ;"}
 
-var c07Menu = []string{"$x \"v $y\" ;", "$x \"v {$y}\" ;", "$x \"v ${y}\" ;", "$x \"v $y[0]\" ;", "$x `ls $y` ;", "$x <<<A\nv $y\nA\n ;", "foo ( $x \"v $y z\" ) ;", "$x -> -> b ;", "__halt_compiler ( ;", "__halt_compiler ;", "__halt_compiler ( ) x ;", "<<<A\nx\nA\n 1 ;", "\"a $b \" 1 ;", "1 + ;", "$a = ;", "foo ( ;", ")", "if ( ;", "class { }", "$a -> ;", "function ( ;", "]", "=> 1 ;", "1 1 ;", "$a [ ;", "new ;", "echo , ;", "$a = = 1 ;", "} }", "}"}
+var c07Menu = []string{"foo ( 1 + ;", "new A ( $b , ;", "$x \"v $y\" ;", "$x \"v {$y}\" ;", "$x \"v ${y}\" ;", "$x \"v $y[0]\" ;", "$x `ls $y` ;", "$x <<<A\nv $y\nA\n ;", "foo ( $x \"v $y z\" ) ;", "$x -> -> b ;", "__halt_compiler ( ;", "__halt_compiler ;", "__halt_compiler ( ) x ;", "<<<A\nx\nA\n 1 ;", "\"a $b \" 1 ;", "1 + ;", "$a = ;", "foo ( ;", ")", "if ( ;", "class { }", "$a -> ;", "function ( ;", "]", "=> 1 ;", "1 1 ;", "$a [ ;", "new ;", "echo , ;", "$a = = 1 ;", "} }", "}"}
 
 // levelStmts: the statement list in which S1…Sk and M stand (innermost "Stmts" along the first statements).
 func levelStmts(root ast.Vertex, depth int) ([]ast.Vertex, bool) {
@@ -182,6 +184,21 @@ func c07One(c *core.Ctx, cs c07Case) {
 				c.Stat("continuations_compared", 1)
 				if !ok2 || len(gotL) == 0 || astx.StructFP(gotL[len(gotL)-1]) != astx.StructFP(wantL[0]) {
 					c.Report("parsing does not continue after a malformed statement: the last well-formed statement is not in the tree ("+ctx.name+")", mkWhat("malformed %q, last statement %q in %q", cs.M, last, cs.Src), cs)
+				} else if all := drive.Parse([]byte("<?php "+ctx.open+strings.Join(cs.After, " ")+ctx.close), v, true); all.Clean() {
+					// … and so are the statements between it and the malformed one: the list ends with the statements that
+					// follow, each as it is when they are parsed alone
+					if wantAll, ok3 := c07Level(all.Root, ctx); ok3 && len(wantAll) > 0 && len(wantAll) <= len(gotL) {
+						tail := gotL[len(gotL)-len(wantAll):]
+						for i := range wantAll {
+							if astx.StructFP(tail[i]) != astx.StructFP(wantAll[i]) {
+								c.Report("parsing does not continue after a malformed statement: a well-formed statement that follows it is missing or changed ("+ctx.name+")", mkWhat("malformed %q, statement %d of the %d that follow in %q", cs.M, i+1, len(wantAll), cs.Src), cs)
+								break
+							}
+						}
+						c.Stat("following_statements_compared", int64(len(wantAll)))
+					} else if ok3 && len(wantAll) > len(gotL) {
+						c.Report("parsing does not continue after a malformed statement: a well-formed statement that follows it is missing or changed ("+ctx.name+")", mkWhat("malformed %q: %d statements follow, the list has %d in %q", cs.M, len(wantAll), len(gotL), cs.Src), cs)
+					}
 				}
 			}
 		}
@@ -434,7 +451,7 @@ func c07Run(c *core.Ctx) {
 					if !c07IsClosed(m, ctx) || !c.Next() {
 						continue
 					}
-					after := []string{"$x = 1 ;", "$y ;"}
+					after := []string{"$x = 1 ;", ";", "bar ( 3 ) ;", "{ ; }", "$y ;"}
 					parts := append(append(append([]string{}, l...), m), after...)
 					src := "<?php " + ctx.open + strings.Join(parts, " ") + ctx.close
 					cs := c07Case{srcCase: mkCase(src, f.V, "malformed statement after statements that use the scanner's mode stack, in "+ctx.name), Ctx: ci, Before: l, After: after, M: m}
